@@ -187,7 +187,17 @@ func appendSetHashBytes(val Value, buf *bytes.Buffer, marks ValueMarks) {
 		// here just so that we can get far enough along to fix it up for
 		// everything else in this package.
 		if bf, ok := val.v.(big.Float); ok {
+			if bf.Sign() == 0 {
+				// a negative zero equals zero, so it must hash like zero
+				buf.WriteString("0")
+				return
+			}
 			buf.WriteString(bf.String())
+			return
+		}
+		if bf := val.v.(*big.Float); bf.Sign() == 0 {
+			// a negative zero equals zero, so it must hash like zero
+			buf.WriteString("0")
 			return
 		}
 		buf.WriteString(val.v.(*big.Float).String())
